@@ -228,6 +228,11 @@ def make_handlers():
     return WrapIn, WrapOut
 
 
+def _falsy(cls):
+    """The same handler, but its truth value is False (it doubles as a registry of codecs and none is registered: __len__ == 0)."""
+    return type('Empty' + cls.__name__, (cls,), {'__len__': lambda self: 0})
+
+
 # ------------------------------------------------------------------------------------------------------
 # program generation
 
@@ -536,6 +541,8 @@ class Built(object):
         if d.get('handler'):
             WrapIn, _ = make_handlers()
             kw['data_handler'] = WrapIn(self, d)
+            if d['handler'] == 'wrap_falsy':
+                kw['data_handler'] = _falsy(WrapIn)(self, d)
         if d.get('capture', 'all') != 'all':
             kw['capture_args'] = self._capture_arg_list(d)
         if d.get('fallback') is not None:
@@ -584,6 +591,8 @@ class Built(object):
         if d.get('handler'):
             _, WrapOut = make_handlers()
             kw['data_handler'] = WrapOut(self, d)
+            if d['handler'] == 'wrap_falsy':
+                kw['data_handler'] = _falsy(WrapOut)(self, d)
         if not d.get('fail_on_no_result', True):
             kw['fail_on_no_recorded_result'] = False
             kw['default_result_when_not_recorded'] = d.get('default')
